@@ -74,6 +74,12 @@ func engineAWith(id, tier string, specs []scen.Spec, mons func() []explore.Monit
 	deadline := time.Now().Add(total)
 	i := 0
 	var specVac []string
+	type rerun struct {
+		idx  int
+		sc   *explore.Scenario
+		seed explore.Seed
+	}
+	var reruns []rerun
 	for _, sp := range specs {
 		perEvent := map[string][2]int64{}
 		d := sp.DepthQuick
@@ -89,6 +95,9 @@ func engineAWith(id, tier string, specs []scen.Spec, mons func() []explore.Monit
 			st, f := explore.Run(sc, seed, explore.Config{Deadline: time.Now().Add(share)})
 			stats = append(stats, st)
 			found = append(found, f...)
+			if !st.Exhaustive && st.SeedError == "" {
+				reruns = append(reruns, rerun{len(stats) - 1, sc, seed})
+			}
 			for k, v := range st.PerEvent {
 				t := perEvent[k]
 				t[0] += v[0]
@@ -105,6 +114,23 @@ func engineAWith(id, tier string, specs []scen.Spec, mons func() []explore.Monit
 			} else if t[0] == 0 && !sp.ExpectFail[ev.Name] {
 				specVac = append(specVac, sp.Name+": event never succeeds: "+ev.Name)
 			}
+		}
+	}
+	// second pass: runs that hit their share of the budget are repeated, one after the other, with the time
+	// the cheaper runs left over (a repeated run replaces the cut one only if it got at least as deep)
+	for ri, r := range reruns {
+		left := time.Until(deadline)
+		if stats[r.idx].Exhaustive || left < 10*time.Second {
+			continue
+		}
+		share := left / time.Duration(len(reruns)-ri)
+		if share < time.Duration(stats[r.idx].WallS*float64(time.Second)) {
+			continue // not more time than the first attempt had
+		}
+		st, f := explore.Run(r.sc, r.seed, explore.Config{Deadline: time.Now().Add(share)})
+		if st.DepthCompleted >= stats[r.idx].DepthCompleted {
+			stats[r.idx] = st
+			found = append(found, f...)
 		}
 	}
 	if len(specVac) > 0 && len(stats) > 0 {
